@@ -76,6 +76,14 @@ def _case(draw, tier):
             # an EARLIER store with another configuration lived at the same path in this process and was removed
             # the three data directories are symbolic links to directories elsewhere (bulk data moved to another volume)
             "symlinked_dirs": draw(st.integers(0, 5)) == 0,
+            # the properties dictionaries list their keys in another order than the documentation does (None = documented order)
+            "key_order_c": draw(st.one_of(st.none(), st.permutations(list(range(5))))),
+            "key_order_r": draw(st.one_of(st.none(), st.permutations(list(range(5))))),
+            # hashstore.yaml as another writer leaves it - the four pinned values intact: re-dumped by a YAML library (no comments,
+            # keys sorted), or cut short somewhere behind the pinned values (the creating process died / the disk filled up
+            # while the tail of the file - the default algorithm list - was written)
+            "yaml_variant": draw(st.sampled_from([None] * 6 + ["redumped", "tail-lost", "tail-lost"])),
+            "yaml_cut": draw(st.integers(0, 400)),
             "previous_life": draw(st.sampled_from([None, None, "same-as-reopen", {"store_depth": 2, "store_width": 3, "store_algorithm": "SHA-384",
                                                                  "store_metadata_namespace": "http://ns.example/previous"},
                                                    {"store_depth": 3, "store_width": 2, "store_algorithm": "SHA-256",
@@ -177,7 +185,7 @@ def _race_case(case, ctx):
         ctx.sample({"family": "racing openers", "configs": cfgs, "schedules": n})
 
 
-def _props(root, vals, enc):
+def _props(root, vals, enc, order=None):
     p = {"store_path": root}
     for k, v in vals.items():
         e = enc.get(k)
@@ -186,7 +194,36 @@ def _props(root, vals, enc):
         elif e == "str":
             v = str(v)
         p[k] = v
+    if order:
+        keys = list(p)
+        p = {keys[i]: p[keys[i]] for i in order if i < len(keys)} | {k: v for k, v in p.items()}
     return p
+
+
+def _rewrite_yaml(root, variant, cut, ctx):
+    """hashstore.yaml as somebody else left it; the four pinned values stay what they were.  Returns False if not applicable."""
+    import yaml
+    path = os.path.join(root, "hashstore.yaml")
+    with open(path, encoding="utf-8") as f:
+        text = f.read()
+    if variant == "redumped":
+        new = yaml.safe_dump(yaml.safe_load(text), default_flow_style=False)
+    else:
+        at = text.find("store_default_algo_list")
+        if at < 0:
+            return False
+        ends = [i + 1 for i in range(at, len(text)) if text[i] == "\n"]   # cut behind a whole line (mostly) or anywhere
+        new = text[:ends[cut % len(ends)]] if ends and cut % 4 else text[:at + (cut % (len(text) - at))]
+        try:
+            y = yaml.safe_load(new)
+        except Exception:  # noqa - cut inside a token: not a configuration file any more
+            return False
+        if not isinstance(y, dict) or any(k not in y for k in KEYS):
+            return False
+    with open(path, "w", encoding="utf-8") as f:
+        f.write(new)
+    ctx.classify("yaml-" + variant)
+    return True
 
 
 def run_case(case, ctx):
@@ -231,7 +268,7 @@ def run_case(case, ctx):
         create["store_depth"] = case["bad_int"]
     create_valid = create["store_algorithm"] in GOOD_ALGOS and not case["bad_int"]
     s0 = common.snapshot(parent)
-    out = call(FHS, _props(root, create, case["enc_c"]))
+    out = call(FHS, _props(root, create, case["enc_c"], case.get("key_order_c")))
     if not create_valid:
         if is_ok(out):
             ctx.violation("invalid-config-accepted", f"creation with {create} succeeded", {"phase": "create"})
@@ -262,11 +299,16 @@ def run_case(case, ctx):
             shutil.move(os.path.join(root, sub), os.path.join(elsewhere, sub))
             os.symlink(os.path.join(elsewhere, sub), os.path.join(root, sub))
         ctx.classify("data-directories-are-symbolic-links")
+    yaml_variant = None
     if case["yaml_removed"]:
         os.remove(os.path.join(root, "hashstore.yaml"))
+    elif case.get("yaml_variant") and _rewrite_yaml(root, case["yaml_variant"], case.get("yaml_cut", 0), ctx):
+        yaml_variant = case["yaml_variant"]
     s0 = common.snapshot(parent)
     reopen = dict(case["reopen"])
-    props = _props(root, reopen, case["enc_r"])
+    props = _props(root, reopen, case["enc_r"], case.get("key_order_r"))
+    if case.get("key_order_r") or case.get("key_order_c"):
+        ctx.classify("properties-in-another-key-order")
     ks = case["keyset"]
     if ks == "missing":
         del props[case["keyset_key"]]
@@ -281,8 +323,9 @@ def run_case(case, ctx):
     out = call(FHS, props)
     s1 = common.snapshot(parent)
     desc = f"created with {create} enc={case['enc_c']}, reopened with {props} (yaml_removed={case['yaml_removed']})"
-    if ks == "extra":
-        # extra keys are not documented either way: only "if refused nothing changed / if accepted data visible"
+    if ks == "extra" or (yaml_variant and expect_ok):
+        # extra keys are not documented either way: only "if refused nothing changed / if accepted data visible"; the same for
+        # a configuration file in another style whose four values agree (a mismatch must still be refused)
         expect = "ok" if is_ok(out) else "refuse"
     else:
         expect = "ok" if expect_ok else "refuse"
@@ -303,6 +346,17 @@ def run_case(case, ctx):
             o = common.retrieve_meta_bytes(out[1], "p1")
             if not is_ok(o) or o[1] != b"<meta/>":
                 ctx.violation("metadata-not-visible-after-reopen", f"{desc}", {"phase": "reopen"})
+        if expect_ok and ks == "exact":
+            # "pinned": what was accepted once is accepted again, by a fresh process too, and still nothing is written
+            common.cold_module()
+            again = call(common.hs().FileHashStore, _props(root, reopen, case["enc_r"]))
+            s2 = common.snapshot(parent)
+            if not is_ok(again):
+                ctx.violation("equal-config-refused", f"{desc} (yaml variant {yaml_variant}): accepted once, then the same "
+                              f"configuration raised {again[1]}: {again[2][:200]}", {"phase": "second-reopen"})
+            if s1 != s2:
+                ctx.violation("open-modified-files", f"{desc}: second reopen changed the directory: {common.snap_diff(s1, s2)}",
+                              {"phase": "second-reopen", "outcome": "ok"})
     differing = [k for k in KEYS if reopen[k] != create[k]]
     enc_only = not differing and (case["enc_c"] != case["enc_r"])
     ctx.classify("reopen-" + ("accepted" if is_ok(out) else "refused"))
